@@ -5,6 +5,8 @@ use vstd::std_specs::ops::*;
 use vstd::std_specs::cmp::*;
 use core::ops::{Add, Div, Mul, Neg, Sub};
 use core::cmp::Ordering;
+use core::slice::Iter;
+use vstd::std_specs::iter::IteratorSpec;
 verus! {
 pub mod spec {
 use super::*;
@@ -47,7 +49,18 @@ impl Paired { pub closed spec fn inner(self) -> Arithmetic { self.stats } }
 //@loop 0| invariant self.inner().wf(), self.inner().n() == old(self).inner().n() + it.index@, old(self).inner().n() + iter.len() < usize::MAX,
 //@loop 0|     self.inner().s1() == old(self).inner().s1() + dsum_to(iter@, it.index@ as int),
 //@loop 0|     self.inner().s2() == old(self).inner().s2() + dsumsq_to(iter@, it.index@ as int),
-// extend (manual .next()/.count() protocol) is outside Verus' subset: Kani, bounded
+//@fn extend ret r
+//@| requires old(self).inner().wf(), old(self).inner().n() + data_a.len() < usize::MAX, old(self).inner().n() + data_b.len() < usize::MAX,
+//@| ensures data_a.len() == data_b.len() ==> r is Ok && final(self).inner().wf() && final(self).inner().n() == old(self).inner().n() + data_a.len()
+//@|             && final(self).inner().s1() == old(self).inner().s1() + psum_to(data_a@, data_b@, data_a.len() as int)
+//@|             && final(self).inner().s2() == old(self).inner().s2() + psumsq_to(data_a@, data_b@, data_a.len() as int),
+//@|         data_a.len() != data_b.len() ==> r is Err && r->Err_0 == CIError::DifferentSampleSizes(data_a.len(), data_b.len()),
+//@loop 0| invariant tail_of(IteratorSpec::remaining(&data_a__it), data_a@, count as int), tail_of(IteratorSpec::remaining(&data_b__it), data_b@, count as int),
+//@loop 0|     count <= data_a.len(), count <= data_b.len(), old(self).inner().n() + data_a.len() < usize::MAX, old(self).inner().n() + data_b.len() < usize::MAX,
+//@loop 0|     self.inner().wf(), self.inner().n() == old(self).inner().n() + count,
+//@loop 0|     self.inner().s1() == old(self).inner().s1() + psum_to(data_a@, data_b@, count as int),
+//@loop 0|     self.inner().s2() == old(self).inner().s2() + psumsq_to(data_a@, data_b@, count as int),
+//@loop 0| decreases data_a.len() - count,
 //@fn sample_mean ret r
 //@| requires self.inner().wf(),
 //@| ensures r.v() == mean_of(self.inner().s1(), self.inner().n()),
@@ -61,6 +74,14 @@ impl Paired { pub closed spec fn inner(self) -> Arithmetic { self.stats } }
 //@| ensures self.inner().n() < 2 ==> r is Err && r->Err_0 == CIError::TooFewSamples(self.inner().n() as usize),
 //@|         self.inner().n() >= 2 ==> r is Ok,
 //@|         r is Ok ==> ci_by_kind(confidence, mean_ci_lo(confidence, self.inner().s1(), self.inner().s2(), self.inner().n()), mean_ci_hi(confidence, self.inner().s1(), self.inner().s2(), self.inner().n()), r->Ok_0),
+//@fn ci ret r
+//@| requires conf_valid(confidence), data_a.len() < usize::MAX, data_b.len() < usize::MAX,
+//@| ensures data_a.len() != data_b.len() ==> r is Err && r->Err_0 == CIError::DifferentSampleSizes(data_a.len(), data_b.len()),
+//@|         data_a.len() == data_b.len() && data_a.len() < 2 ==> r is Err && r->Err_0 == CIError::TooFewSamples(data_a.len()),
+//@|         data_a.len() == data_b.len() && data_a.len() >= 2 ==> r is Ok,
+//@|         r is Ok ==> ci_by_kind(confidence,
+//@|             mean_ci_lo(confidence, psum_to(data_a@, data_b@, data_a.len() as int), psumsq_to(data_a@, data_b@, data_a.len() as int), data_a.len() as nat),
+//@|             mean_ci_hi(confidence, psum_to(data_a@, data_b@, data_a.len() as int), psumsq_to(data_a@, data_b@, data_a.len() as int), data_a.len() as nat), r->Ok_0),
 //@endimpl
 
 //@impl src/comparison.rs impl<F: Float> core::ops::Add for Paired<F>
